@@ -13,7 +13,9 @@ import sys
 import tempfile
 import time
 
-from . import registry, verus
+from . import registry
+from . import adopt
+from . import verus
 from .extract import Undecided
 from .unit import assemble
 
@@ -60,13 +62,37 @@ def run_unit(name, repo, work, tier):
         return out
     out["asm"] = asm
     rlimit = cfg.get("rlimit", 60) * (3 if tier == "thorough" else 1)
+    def settle(a, path):
+        # rules RH / R5d: name-resolution errors about real helper methods the unit does not contain yet are answered by
+        # adopting those helpers from the sources (vx/adopt.py) and running again
+        r = verus.run(a, path, rlimit)
+        for _ in range(4):
+            if not r.rejections:
+                break
+            try:
+                if not adopt.adopt(a, r, repo):
+                    break
+            except Undecided as e:
+                r.undecided.append("helper adoption failed: %s" % e)
+                break
+            r = verus.run(a, path, rlimit)
+        return r
+
     with cf.ThreadPoolExecutor(max_workers=2) as ex:
-        f1 = ex.submit(verus.run, asm, os.path.join(work, name, "unit.rs"), rlimit)
-        f2 = ex.submit(verus.run, casm, os.path.join(work, name + "_canary", "unit.rs"), rlimit)
+        f1 = ex.submit(settle, asm, os.path.join(work, name, "unit.rs"))
+        f2 = ex.submit(settle, casm, os.path.join(work, name + "_canary", "unit.rs"))
         res, cres = f1.result(), f2.result()
     out["res"] = res
     out["undecided"] += ["%s: %s" % (name, u) for u in res.undecided]
-    out["failures"] = res.failures
+    weak = adopt.callers_of_opaque(asm)
+    for f in res.failures:
+        if asm.fns.get(f.fn, {}).get("auto"):
+            out["undecided"].append("%s: obligation inside adopted helper %s not discharged (%s) — helpers carry derived contracts only, not a verdict" % (name, f.fn, f.message))
+        elif f.fn in weak:
+            out["undecided"].append("%s: %s/%s not discharged, but the function calls an adopted helper without contract (%s) — not a verdict" % (
+                name, f.fn, f.label, f.message))
+        else:
+            out["failures"].append(f)
     # vacuity guard: every canary copy (`ensures false`) must be rejected
     rejected = set(f.fn for f in cres.failures if f.label and f.label.endswith("CANARY"))
     missing = [c for c in casm.canaries if c not in rejected]
@@ -259,6 +285,7 @@ def _run(pid, cfg, tier, seed, repo, work, t0):
             kani=[dict(group=k["group"], harnesses=[{kk: vv for kk, vv in h.items() if kk != "output"} for h in k["harnesses"] if pid in h["props"]]) for k in kres],
             samples=[o for o in obligations][:400],
             undecided=undecided,
+            extraction_notes=["%s: %s" % (u["name"], n) for u in units if u["asm"] is not None for n in u["asm"].notes],
             detection_selftest=mut if mut is not None else "thorough tier only",
             exhaustive=False,
             explanation="obligations = labelled contract clauses (postconditions, loop invariants) of the real functions listed, one safety obligation per function (overflow, bounds, callee preconditions, asserts), Kani harnesses, and the supporting lemmas; discharged by the back end named per obligation on /repo's current working tree",
